@@ -100,6 +100,20 @@ def consistency(prob, P, sol, rec, bad):
     if not all(isinstance(v, float) and math.isfinite(v) for v in sol.values.values()):
         rec.noncomp["non-finite-values"] += 1
         return
+    # every scalar handle (the Variable object, its name) retrieves the returned value through [] and through get(), with and without
+    # a default - also a value that is exactly 0.0 (an LP vertex, an active zero bound)
+    rec.cmp(1, "handle:scalar-get")
+    for v in P.variables:
+        val = sol.values[v.name]
+        try:
+            got = (sol[v], sol[v.name], sol.get(v), sol.get(v.name), sol.get(v, -12345.0), sol.get(v.name, "dflt"))
+        except Exception as ex:
+            bad("scalar-handle-raises:" + type(ex).__name__, name=v.name, error=repr(ex)[:200])
+            break
+        rec.events["scalar-handle-reads" + (":value-exactly-zero" if val == 0.0 else "")] += 1
+        if any(not (isinstance(g, float) and g == val) for g in got):
+            bad("scalar-handle-does-not-retrieve-the-returned-value", name=v.name, value=val, got=[repr(g) for g in got])
+            break
     pt = dict(sol.values)
     for nm in D.all_var_names():
         pt.setdefault(nm, 0.0)
